@@ -445,7 +445,9 @@ pub fn run_lab(p: &dyn LabProp, ctx: &Ctx, rep: &mut Report) -> LabOutcome {
     for (_, f) in new_by_sig.into_iter().take(3) {
         let c = &cases[f.case];
         let (mut best_g, mut best_text) = (c.g.clone(), c.text.clone());
-        let (mut best_req, mut sig, mut what) = shrink_input(p, &best_g, &best_text, &f.req, &known, ctx.tier);
+        // VERIF_NO_SHRINK=1: report the failure as found (debugging aid)
+        let no_shrink = std::env::var("VERIF_NO_SHRINK").is_ok();
+        let (mut best_req, mut sig, mut what) = if no_shrink { (f.req.clone(), String::new(), String::new()) } else { shrink_input(p, &best_g, &best_text, &f.req, &known, ctx.tier) };
         if sig.is_empty() {
             // not reproducible alone: report as found
             sig = f.sig.clone();
